@@ -21,7 +21,7 @@ func isHTTPS(t string) bool { return t == "PAN-OS" || t == "NSX" }
 func deviationsAt(sc *dscenario, rec sim.Rec) []string {
 	if isHTTPS(sc.devType) {
 		l := []string{sim.DevHTTP500, sim.DevHTTP403, sim.DevHTTP502E, sim.DevHTTP400J, sim.DevMalformed, sim.DevClose, sim.DevStall, sim.DevStallBody, sim.DevAPIError,
-			sim.DevRedirClose, sim.DevRedirLoop}
+			sim.DevRedirClose, sim.DevRedirLoop, sim.DevTruncated, sim.DevHTTP404Echo}
 		if rec.Class == sim.ClSave {
 			l = append(l, sim.DevCommitMsg, sim.DevJobFail, sim.DevJobPend)
 		}
